@@ -337,24 +337,25 @@ example : (∀ t ∈ (lex witnessSrc).toList, t.id ≠ tERROR) ∧
 
 /-! ## Errors, stack traces and break points copy the token's position (regenerated source fact) -/
 
-/-- which site kinds the extractor found in the expected shape (evidence; not an obligation:
-    a behaviour-preserving rewrite may move a site into a shape the extractor does not know) -/
+/-- which site kinds the extractor found in the expected shape (reported in the evidence as
+    `fact_kinds_established`; not an obligation: a behaviour-preserving rewrite may move a site
+    into a shape the extractor does not know) -/
 def establishedKinds : List Nat :=
   [1, 2, 3, 4, 6, 7, 8, 9, 10].filter fun k => Ecal.Gen.C18.sites.any fun s => s.1 == k && s.2.1 == 0
 
 /-- **errors_carry_token_pos (source fact, regenerated from the tree under test on every run by
-    `harness C18 -tool extract`, go/ast; three-valued).** No site that copies a token position into
-    something the user sees is REFUTED: no construction of `parser.Error` / `util.RuntimeError`, no
-    `Error()` text, no stack trace entry, no break point key and no except object field uses the
-    position fields in a wrong arrangement (Line / Pos swapped, taken from two different tokens, the
-    byte offset or PrefixNewlines instead of Lline / Lpos, arithmetic on them). On the current tree
-    every kind of site is moreover ESTABLISHED in the expected shape (`establishedKinds`, example
-    below): Line / Pos from `Lline` / `Lpos` of ONE token (or 0, 0), Line printed before Pos from the
-    struct's own fields, trace entries and break point keys on `Token.Lline`, except object
-    `line` / `pos` = the error's `Line` / `Pos`. A site of UNKNOWN shape breaks nothing and is
-    reported in the evidence; the planted-error and break point cases (kinds E, B) observe the same
-    clause at run time. -/
+    `harness C18 -tool extract`, go/ast; three-valued; the judgement itself is Go string matching on
+    the operands and is part of the trusted base).** (1) Every kind of site that copies a token
+    position into something the user sees is PRESENT in the tree (constructions of `parser.Error` /
+    `util.RuntimeError`, both `Error()` methods, `GetTraceString`, the break point key that indexes
+    `ed.breakPoints` in `VisitState`, `SetBreakPoint`, the except object's `line` / `pos`) — an empty
+    or foreign tree does not satisfy this; (2) no site is REFUTED: none uses a token's byte offset or
+    PrefixNewlines, arithmetic on a position field, or Line / Pos of one value swapped. A site of
+    UNKNOWN shape (locals, helpers) breaks nothing and is listed in the evidence; which kinds are
+    ESTABLISHED in the expected shape is evidence too (`establishedKinds`; all nine on /repo HEAD).
+    The planted-error and break point cases (kinds E, B) observe the same clause at run time. -/
 theorem errors_carry_token_pos :
+    ([1, 2, 3, 4, 6, 7, 8, 9, 10].all fun k => Ecal.Gen.C18.sites.any fun s => s.1 == k) = true ∧
     (Ecal.Gen.C18.sites.all fun s => s.2.1 != 1) = true := by
   decide
 
